@@ -265,7 +265,11 @@ fn manual_base(rng: &mut Rng, cfg: &mut SimCfg, n: usize, tick_ms: u64) -> (Net,
         script.push((after, Act::Release(gen_sel(rng, a), gen_sel(rng, b))));
     }
     let fin = after + 2;
-    script.push((fin, Act::Release(Sel::All, Sel::All)));
+    // half of the workloads never release the link: what was delivered by hand must arrive all the
+    // same, what was not stays held to the end
+    if rng.bool() {
+        script.push((fin, Act::Release(Sel::All, Sel::All)));
+    }
     let tick = cfg.tick_us;
     let net = Net { cfg: cfg.clone(), hosts: n, udp, conns, hacts: vec![], script, steps: fin + (3 * (cfg.max_latency_us.div_ceil(tick) + 2) + 4) as u32, sample_links: true };
     (net, Manual { pair: (a, b), mark_step })
@@ -661,6 +665,7 @@ impl Property for C08 {
                 }
                 EvKind::Links(snap) => {
                     rep.probes.inc("links_sampled");
+                    let mut released_still_listed = 0u64;
                     let c = e.t;
                     let partial = snap.len() == 1 && total_pairs > 1;
                     let mut seen_pairs = BTreeSet::new();
@@ -695,6 +700,12 @@ impl Property for C08 {
                                     } else if send.step as u64 * tick + model.lmax > c {
                                         maybe.insert(*m);
                                     }
+                                }
+                                // released or delivered by hand from the Sim handle in this very gap between two
+                                // steps: no host has run since, the message cannot have left the link
+                                St::Released { ev, certain: true, .. } if tr.evs[ev].host.is_none() && tr.evs[ev].step == e.step => {
+                                    released_still_listed += 1;
+                                    certain.insert(*m);
                                 }
                                 // the text sets no time bound between a release and the receipt: until it is
                                 // received a released message may or may not still be listed
@@ -767,6 +778,7 @@ impl Property for C08 {
                             fail(&mut violation, "LinksMissing", format!("Sim::links at event {} (t={}us) does not list {m:?} on link (h{}, h{}) although it is in flight (state {:?}, sent at t={}us, event {})", e.seq, c, l.a, l.b, ms.st, tr.evs[ms.send].t, tr.evs[ms.send].seq));
                         }
                     }
+                    rep.probes.add("released_message_required_in_links_before_next_step", released_still_listed);
                 }
                 EvKind::ConnErr { conn, kind } => {
                     fail(&mut violation, "Lost", format!("connect of connection {conn} failed with {kind} although no link was partitioned (event {})", e.seq));
@@ -857,6 +869,9 @@ impl Property for C08 {
         }
         if max_held_on_a_link >= 2 {
             rep.probes.inc("two_or_more_held_on_one_link");
+        }
+        if net.script.iter().any(|(_, a)| matches!(a, Act::Deliver { .. } | Act::DeliverAll(..))) && !net.script.iter().any(|(_, a)| matches!(a, Act::Release(..))) {
+            rep.probes.inc("manual_delivery_on_a_link_never_released");
         }
         if sc.net.script.iter().any(|(_, a)| matches!(a, Act::Deliver { .. })) {
             rep.probes.inc("manual_delivery_plan");
